@@ -490,6 +490,7 @@ def build_H(rng, sp, N, groups, form):
     Hs = [build_mpo(sp, N, p) for p in parts]
     if rng.random() < 0.5:
         Hs[0] = rng.choice((0.7, -1.2)) * Hs[0]
+    rng.shuffle(Hs)               # the order of a sum is the caller's business: any order must give the same operator
     if form == "added":
         H = Hs[0]
         for h in Hs[1:]:
@@ -509,12 +510,12 @@ def pick_charge(rng, sp, N, pbig=0.85):
     return rng.choice(adm), dims
 
 
-def hermitian_dense_or_skip(ctx, H, sp):
-    """Dense image of H; the case is skipped (counted) unless it is a non-zero Hermitian matrix."""
+def hermitian_dense_or_skip(ctx, H, sp, allow_zero=False):
+    """Dense image of H; the case is skipped (counted) unless it is a (non-zero, unless allowed) Hermitian matrix."""
     from .harness import CaseSkip
     Hd = ham_dense(H, sp)
     hn = float(np.max(np.abs(Hd))) if Hd.size else 0.0
-    if hn == 0 or float(np.max(np.abs(Hd - Hd.conj().T))) > 1e-11 * max(1.0, hn):
+    if (hn == 0 and not allow_zero) or float(np.max(np.abs(Hd - Hd.conj().T))) > 1e-11 * hn:
         ctx.count("skipped_nonhermitian_or_zero_H")
         raise CaseSkip
     return Hd
@@ -537,7 +538,10 @@ class Sector:
         Hs = Hd[np.ix_(self.idx, self.idx)]
         self.Hs = 0.5 * (Hs + Hs.conj().T)
         self.ev = np.linalg.eigvalsh(self.Hs)
-        self.scale = max(1.0, float(np.max(np.abs(self.ev))))
+        # scale of H for every *relative* tolerance: the larger of the sector's spectral radius and the largest matrix element of
+        # the whole H (round-off of the MPO contractions is relative to the whole operator, also in a sector where H vanishes).
+        # No absolute floor: H = 1e-8 * H0 is judged as strictly as H0; for H = 0 every tolerance is 0 (exact zeros expected).
+        self.scale = max(float(np.max(np.abs(self.ev))), float(np.max(np.abs(Hd))) if Hd.size else 0.0)
 
     def energy(self, vs):
         """Rayleigh quotient of a (not necessarily normalised) sector vector."""
